@@ -35,6 +35,34 @@ CHECKS = {
    technique='bounded exhaustive pairwise comparison: every tree of a finite family (all 71 kinds x all legal arities <=3 over a 13-leaf alphabet, depth 2 over kind-class representatives, all single-point mutations), each built in two ExprFactory instances, all N(N+1)/2 pairs judged by a structural equality on the generator descriptions',
    text='Every unordered pair of 21,168 (quick) / 65,950 (thorough) factory-built trees is run through mp::Equal in both directions and std::hash<mp::Expr> on the real code under ASan+UBSan. Equal must equal an independent structural equality on the tree descriptions (hence an equivalence), be symmetric, imply equal hashes, and never crash. Kinds without a comparator (root STRING, IFSYM, NUMBEROF_SYM) may only throw mp::UnsupportedError.',
    note='Finite family only: arity <=3, depth <=2 (3 via mutation), small constant/index/string alphabets, no NaN, no null children. Function identity is object identity. Hash quality is not checked.'),
+ 'C03': dict(level='exploration', engine='nlrt', ref='3/C03',
+   technique='bounded exhaustive enumeration of NL models (vx::Explorer choice sequences over item-class sizes, variable-ordering blocks, bound kinds, linear subsets, defined-variable classes, function calls, suffix subsets, names, every operator x arity and every well-typed operator pair) x all writer configurations, each written by the real mp::WriteNLFile and read by the real mp::ReadNLFile into a recording handler and compared with a transcript computed from the model; plus exhaustive number lattices through the writer nput/apr and the reader ReadConstant',
+   text='Every model of 20 families (item-class sizes 0..3, 9 variable-ordering blocks, all bound kinds incl. complementarity, linear-part subsets, 5 defined-variable classes, function calls with numeric/string/symbolic-if arguments, suffixes 4 kinds x int/real x every subset, names, header options, all 65 operators at the root with arities {min,min+1,3}, all 4636 well-typed operator pairs) is cycled through NLW2 and the NL reader under all 24 writer configurations x 2 reader flags: 311K file cycles quick, 2.77M thorough. Numbers: all doubles with low 40 (quick, 2^24) / 36 (thorough, 2^28) mantissa bits zero at formatter level in both formats, and a 69,659-value lattice in whole files in every numeric position.',
+   note='Expression depth <=2, item counts <=3; numbers on lattices, not all 2^64 doubles. Trusts the hand-written operator table (optable.h) as the NL specification. OutputPrecision!=0, random-variable segments, C API wrappers and ampl_vbtol with >1 significant digit are out of scope.'),
+ 'C08': dict(level='exploration', engine='nlw2-easyapi', ref='3/C08',
+   technique='bounded exhaustive enumeration of mp::NLModel instances (all column-type vectors over 6 types for 1..3 columns x every Hessian support subset x both declared formats, jointly; all 1- and 2-deviations of the remaining dimensions) written by the real NLSolver::LoadModel / NLW2_* C API, read back by the real mp::ReadNLFile into mp::Problem and compared through the reported permutation with a permutation-free reference model; reference .sol files fed to NLSolver::ReadSolution',
+   text='Every NLModel of the stated finite space is written by the real easy-API writer (also through the C API with a byte-identity requirement on a subset), read back with the NL reader, and judged at the reported permutation: bounds, integrality, objective value at all 3^n points of {-1,0,2}^n against c0+c.x+0.5 x\'Qx, rows, header class counts and NL block order, warm starts, all 8 suffix kinds, .col/.row; five reference .sol files per model are returned through ReadSolution and the objective is recomputed.',
+   note='<=3 columns, <=2 rows, small dyadic coefficients, one objective, text .sol only; quick takes n=3 Hessian supports on a 60-element covering set; non-core dimensions 1-way and pairwise. The Hessian format enum is undocumented and taken literally (stored matrix).'),
+ 'C09': dict(level='fault_enumeration', engine='vdriver', ref='3/C09',
+   technique='bounded exhaustive process-level exploration of the real driver (BackendApp/RunBackendApp with a scripted solver): model families x option strings x invocation modes x names files x scripted answers, plus enumeration of every truncation point of the .sol (RLIMIT_FSIZE=k for all k) and unwritable .sol paths; oracle = process outcome + reference .sol parser + NL-header dimensions + cause-class rules',
+   text='4.3K (quick) / 14.7K (thorough) driver processes: every operator shape, proven-infeasible models, every unsupported construct, missing bounds, single deviations of base .nl files (every line deleted, every numeric token replaced, every truncation), nesting ladders, option/mode/names-file alphabets, scripted result codes, and for three representative runs every byte offset at which the file system refuses to grow the .sol; each run must terminate, not crash, and leave either a complete dimensionally right .sol with a code of the right class or a diagnostic on stderr with a non-zero status.',
+   note='Models <=3 variables; malformed inputs are single deviations of 5/10 base files; faults are single, on the .sol path only; the sanitizer build excludes operator shapes and byte-offset faults; AMPL itself is not run.'),
+ 'C10': dict(level='exploration', engine='vdriver', ref='3/C10',
+   technique='complete enumeration of solve-result codes on the real driver: every code in [-200,999] x presence/absence of primal, dual and objective values (x IsMIP in thorough), one process of the scripted-backend AMPL driver per case; the six StdBackend classification predicates called on the same backend class for every code; the -! table; judged against the range table parsed from doc/source/features-guide.rst',
+   text='All 1200 codes x 8 answer patterns (9,600 runs; 19,200 in thorough) are executed. The .sol objno line must carry the reported code; the first message line must contain the objective exactly when the documented class is solved / unbounded-with-solution / limit-with-solution and a value was supplied; each predicate must equal membership in the documented ranges for all 1200 codes; -! must list every documented range.',
+   note='One model (2-variable LP) and one backend class; 100-199 is not judged for the objective; codes above 999 are not explored.'),
+ 'C12': dict(level='exploration', engine='vdriver', ref='3/C12',
+   technique='bounded exhaustive enumeration of NL files with 0..3 objectives (sense x {linear, constant, abs, quadratic}) x objno {unset, 0..n+1} x multiobj x option route x text/binary NL x quadratic-objective acceptance, one driver process per case; delivered objectives compared semantically with a reference selection function and the NL reference evaluator; objno line and rejection diagnostics checked',
+   text='Every case (8,752 quick / 54,832 thorough) runs the real reader, flattener, converter and .sol writer. In single mode exactly the selected objective (sense and value at 8 separating points) must be delivered, none for objno 0 or n=0; in multi mode all in file order; objno>n must be rejected with an option error, a failure code and no Solve; the .sol objno must name the objective used.',
+   note='n<=3, two variables, one nonlinear operator per objective; multiobj=1 with explicit objno accepts either reading; equality is judged at test points separating span{1,x0,x1,|x0|,x0^2}; the binary NL encoder is the check\'s own.'),
+ 'C19': dict(level='exploration', engine='vdriver', ref='3/C19',
+   technique='bounded exhaustive enumeration of driver runs (real RunBackendApp path incl. .col/.row reading) over models x acceptance configs x cvt:names 0..3 x name-file variants, judged on the names recorded by the solver API: completeness, fidelity, provenance, uniqueness',
+   text='For every model of the families (linear mixes, canonicalisation, unary-encoding, sampled sharing/shape models), 3 acceptance configurations, the 4 names modes and 7 name-file variants (absent, plain, CRLF, short, col-only, look-alikes of derived names, bracketed names with blanks) the names delivered with AddVariables / AddConstraint / Set*Objective are checked: non-empty, original items carry the file or documented generic name, derived names start with an NL item name, no two delivered variables and no two delivered constraints share a name.',
+   note='Models <=3 variables; provenance of an unnamed/duplicated item is taken from the graph export of the same run; known inherent collisions of the counted-name scheme are listed in known-findings.jsonl by suffix-chain pattern.'),
+ 'C20': dict(level='exploration', engine='vdriver', ref='3/C20',
+   technique='bounded exhaustive enumeration of driver runs with cvt:writegraph over models x acceptance configs x names modes x name alphabets (quotes, backslashes, control/UTF-8 characters); strict JSON parsing and referential validation of every record against the constraints recorded by the solver API in the same run',
+   text='Every line of every exported graph must be a JSON object under a strict parser; every NL variable/constraint/objective and every delivered variable/objective must appear; each stored constraint has exactly one creation and one final-status record with consistent unused/bridged/final flags and contiguous indices; every link reference lies inside its item class; the constraints marked final equal (per type count and name multiset) the AddConstraint calls recorded by RecAPI.',
+   note='The k-th delivered constraint of a type is matched to the k-th final record of that type; infinite bounds of unbounded variables are not in the model alphabet (bounded variables only).'),
 }
 NOT_YET = {}
 def main():
